@@ -92,9 +92,11 @@ def repr_def(rng, did, n=None, repr_=None, anchored=None, kinds="mixed", generic
     E = enum(did, vs, repr_=repr_, generics=generics, split=rng.randrange(2))
     # the same integer repr written together with / next to an alignment hint
     if repr_ != "none" and n > 0 and not for_disc:
-        mode = rng.choice(["plain", "plain", "plain", "align_combined", "align_combined_last", "align_split_first", "align_split_last"])
+        mode = rng.choice(["plain", "plain", "plain", "align_combined", "align_combined_last", "align_split_first", "align_split_last",
+                           "trailing_comma", "trailing_comma_split"])
         E["reprs"] = {"plain": [repr_], "align_combined": ["align(16), %s" % repr_], "align_combined_last": ["%s, align(16)" % repr_],
-                      "align_split_first": ["align(16)", repr_], "align_split_last": [repr_, "align(16)"]}[mode]
+                      "align_split_first": ["align(16)", repr_], "align_split_last": [repr_, "align(16)"],
+                      "trailing_comma": ["%s," % repr_], "trailing_comma_split": ["%s," % repr_, "align(16),"]}[mode]
         E["repr_mode"] = mode
     else:
         E["repr_mode"] = "plain"
@@ -202,14 +204,14 @@ def disc_def(rng, did):
     for t in need:
         if t not in have:
             E["variants"].append(variant({"T": "CarrierT", "str": "CarrierL"}[t], "tuple", [field(t)]))
-    mode = rng.choice(["plain", "plain", "align_combined", "align_split_first", "align_split_last"]) if repr_ not in ("none",) else rng.choice(["plain", "align_only"])
+    mode = rng.choice(["plain", "plain", "align_combined", "align_split_first", "align_split_last", "trailing_comma_split"]) if repr_ not in ("none",) else rng.choice(["plain", "align_only"])
     if repr_ == "C":
         E["reprs"] = ["C"]
     elif repr_ == "none":
         E["reprs"] = [] if mode == "plain" else ["align(8)"]
     else:
         E["reprs"] = {"plain": [repr_], "align_combined": ["align(16), %s" % repr_], "align_split_first": ["align(16)", repr_],
-                      "align_split_last": [repr_, "align(16)"], "C": ["C, %s" % repr_]}[mode]
+                      "align_split_last": [repr_, "align(16)"], "C": ["C, %s" % repr_], "trailing_comma_split": ["%s," % repr_, "align(16),"]}[mode]
     E["repr_mode"] = mode
     E["dname"] = rng.choice(["", "", "Kind%d" % did])
     E["dvis"] = rng.choice(["", "", "pub", "pub(crate)", "pub(super)"])
